@@ -303,7 +303,45 @@ def run(ctx, scale=1):
                 out_fail.append({"input": {"kind": "unencodable-password", "encoding": enc, "password": pw.encode("ascii", "backslashreplace").decode("ascii")}, "what": "password fragment %r in a %s record of %s (%s): the client (encoding %s) could not encode the PASS line: %r" % (
                     hits[0][4], hits[0][1], hits[0][0], hits[0][2], enc, hits[0][3][-300:]), "signature": "C20:unencodable-pass-line-leak"})
 
+    async def split_long_pass(cap):
+        """a PASS line longer than the server's line limit (64 KiB) that arrives in pieces - the first piece already over
+        the limit, the CRLF in a later one: whatever the server makes of the pieces, no record carries any of it"""
+        for i, (first, pause) in enumerate(((66000, 0.05), (70000, 0.05), (66000, 0.3), (131072, 0.05)) * scale):
+            t = c20.token(rng)
+            pw = (t + "-") * (150000 // (len(t) + 1))
+            server = aioftp.Server([aioftp.User("bob", "other-Pw")])
+            await server.start("127.0.0.1", 0)
+            cap.take()
+            try:
+                r, w = await asyncio.open_connection("127.0.0.1", server.server_port)
+                await asyncio.wait_for(r.readline(), 1)
+                w.write(b"USER bob\r\n")
+                await asyncio.wait_for(r.readline(), 1)
+                line = ("PASS " + pw + "\r\n").encode("utf-8")
+                w.write(line[:first])
+                await w.drain()
+                await asyncio.sleep(pause)
+                try:
+                    w.write(line[first:])
+                    await w.drain()
+                    await asyncio.wait_for(r.read(200), 0.5)
+                except Exception:  # noqa
+                    pass
+                w.close()
+                await asyncio.sleep(0.05)
+            finally:
+                await server.close()
+            recs = cap.take()
+            res.cases += 1
+            res.count("long_pass_line_in_pieces")
+            res.distinct.add(("split-long-pass", first, pause))
+            hits = c20.canary_hits(recs, [t])
+            if hits:
+                out_fail.append({"input": {"kind": "long-pass-line-in-pieces", "first_piece": first, "pause": pause, "password_length": len(pw)}, "what": "password fragment %r in a %s record of %s (%s): the PASS line (%d bytes) arrived in two pieces, the first of %d bytes: %r" % (
+                    hits[0][4], hits[0][1], hits[0][0], hits[0][2], len(pw) + 7, first, hits[0][3][:120]), "signature": "C20:long-pass-line-leak"})
+
     async def main(cap):
+        await split_long_pass(cap)
         await same_account(cap)
         await unencodable(cap)
         await late_reply(cap)
